@@ -9,6 +9,49 @@ use serde_json::json;
 use std::sync::atomic::Ordering;
 use std::time::Instant;
 
+/// Chooses msg[pos..pos+4] so that crc32(msg) == target (CRC32 is affine in the message bits: 32 probes + elimination).
+fn forge_crc32(msg: &mut [u8], pos: usize, target: u32) -> bool {
+    use crate::refmodel::crc::crc32;
+    let base = crc32(msg);
+    let mut rows: Vec<(u32, u32)> = Vec::new(); // (column vector, which free bit)
+    for j in 0..32usize {
+        msg[pos + j / 8] ^= 1 << (j % 8);
+        rows.push((crc32(msg) ^ base, 1u32 << j));
+        msg[pos + j / 8] ^= 1 << (j % 8);
+    }
+    // Gaussian elimination on the 32 column vectors, tracking combinations of free bits
+    let mut want = target ^ base;
+    let mut pick = 0u32;
+    let mut basis: Vec<(u32, u32)> = Vec::new();
+    for (mut v, mut c) in rows {
+        for &(bv, bc) in &basis {
+            if v & (1 << (31 - bv.leading_zeros())) != 0 {
+                v ^= bv;
+                c ^= bc;
+            }
+        }
+        if v != 0 {
+            basis.push((v, c));
+            basis.sort_by(|a, b| b.0.cmp(&a.0));
+        }
+    }
+    for &(bv, bc) in &basis {
+        if want & (1 << (31 - bv.leading_zeros())) != 0 {
+            want ^= bv;
+            pick ^= bc;
+        }
+    }
+    if want != 0 {
+        return false;
+    }
+    for j in 0..32usize {
+        if pick & (1 << j) != 0 {
+            msg[pos + j / 8] ^= 1 << (j % 8);
+        }
+    }
+    crc32(msg) == target
+}
+
 pub fn run(tier: Tier) -> i32 {
     let ctx = Ctx::new("C18", "exploration", tier);
     ctx.set_rule("E5: 6 valid base files (1-3 blocks with content, 1-2 empty blocks, no block), re-encoded (all CRCs correct) with each unsupported feature: all 16 check IDs consistently in header and footer with a check field of the specified size (real SHA-256 for 0x0A) - accepted iff ID in {0,1,4}; each high bit of the check byte and each bit of the first flags byte; each reserved block-flag bit; filter IDs {delta, BCJ x86..RISC-V, LZMA1-like, 0x20, 0x22, 2^62} as sole filter and ahead of LZMA2 with their correct property sizes; two concatenated streams; stream padding 4..16. Oracle: Err (never Ok). distinct_nontrivial = files carrying exactly one unsupported feature.");
@@ -139,6 +182,44 @@ pub fn run(tier: Tier) -> i32 {
             items.push((format!("[{}] + {} bytes of stream padding + second stream", bn, pad), p, false, one.len()));
         }
     }
+    // ---- a later block whose header has the same size AND the same CRC32 as the previous block's header but lists an
+    // unsupported filter (x86 BCJ with a start offset chosen to make the CRC32s collide): a well-formed file
+    {
+        use crate::refmodel::crc::crc32;
+        let (p0, plain0) = super::c03::stored_payload(5, 1);
+        let (p1, plain1) = super::c03::stored_payload(6, 2); // (no 0xE8 / 0xE9 bytes: the BCJ filter would be the identity)
+        let b0 = Block { payload: p0, plain: plain0, extra_pad4: 1, ..Default::default() };
+        let mut hdr1: Vec<u8> = vec![3, 0x01, 0x04, 0x04, 0, 0, 0, 0, 0x21, 0x01, 0x16, 0];
+        let hdr0: Vec<u8> = vec![3, 0x00, 0x21, 0x01, 0x16, 0, 0, 0, 0, 0, 0, 0];
+        if !plain1.iter().any(|b| *b == 0xE8 || *b == 0xE9) && forge_crc32(&mut hdr1, 4, crc32(&hdr0)) {
+            let b1 = Block { payload: p1, plain: plain1, o_filters: Some(vec![(mbi(0x04), mbi(4), hdr1[4..8].to_vec()), (mbi(0x21), mbi(1), vec![0x16u8])]), ..Default::default() };
+            for blocks in [vec![b0.clone(), b1.clone()], vec![b0.clone(), b0.clone(), b1.clone()]] {
+                let f = XzFile { check_id: 1, blocks, ..Default::default() };
+                let (bytes, spans) = xz::build(&f);
+                // the construction is only meaningful if the two header CRC32 fields really are equal
+                let crcs: Vec<&[u8]> = spans.iter().filter(|s| s.0.ends_with(".header_crc")).map(|s| &bytes[s.1..s.2]).collect();
+                if crcs.len() >= 2 && crcs[0] == crcs[crcs.len() - 1] {
+                    items.push((format!("{} blocks, the last one with an x86 BCJ filter ahead of LZMA2 and a header of the same size and CRC32 ({:02x?}) as the first block's", f.blocks.len(), crcs[0]), bytes, false, 0));
+                }
+            }
+        }
+    }
+    // ---- thousands of blocks, then something after the stream (a decoder may take another path for a long index)
+    for nb in tier.pick(vec![5000usize], vec![4095usize, 4096, 5000, 70000]) {
+        let blocks: Vec<Block> = (0..nb)
+            .map(|b| {
+                let (p, plain) = super::c03::stored_payload(b % 2, b);
+                Block { payload: p, plain, ..Default::default() }
+            })
+            .collect();
+        let (one, _) = xz::build(&XzFile { check_id: 1, blocks, ..Default::default() });
+        let mut padded = one.clone();
+        padded.extend_from_slice(&[0, 0, 0, 0]);
+        items.push((format!("{} blocks + 4 bytes of stream padding", nb), padded, false, usize::MAX));
+        let mut two = one.clone();
+        two.extend_from_slice(&xz::build(&XzFile { check_id: 1, ..Default::default() }).0);
+        items.push((format!("{} blocks followed by an empty stream", nb), two, false, usize::MAX));
+    }
     let n = items.len() as u64;
     par_for(n, |i| {
         let (label, bytes, must_ok, split) = &items[i as usize];
@@ -161,7 +242,10 @@ pub fn run(tier: Tier) -> i32 {
         // the refusal must not depend on how the reader presents the data: byte-wise, small buffers, and - where
         // something follows the first stream - every BufReader capacity and a refill boundary exactly at / around its end
         let mut rds: Vec<Rd> = vec![Rd { period: 1, ..Rd::default() }, Rd { bufreader: 1, ..Rd::default() }, Rd { bufreader: 3, ..Rd::default() }];
-        if *split > 0 {
+        if *split == usize::MAX {
+            rds.push(Rd { bufreader: 8192, ..Rd::default() });
+            rds.push(Rd { period: 4096, ..Rd::default() });
+        } else if *split > 0 {
             for c in 1..=(*split + 2) {
                 rds.push(Rd { bufreader: c, ..Rd::default() });
             }
@@ -173,7 +257,7 @@ pub fn run(tier: Tier) -> i32 {
             }
             rds.push(Rd { period: *split, ..Rd::default() });
         }
-        if *split > 0 {
+        if *split > 0 && *split != usize::MAX {
             // a hiccup of the source (Other / Interrupted / WouldBlock / TimedOut, once, at any call) may be retried or reported,
             // but it cannot turn a file that must be refused into a success
             let probe = crate::cases::run_case(&Case::Dec { fmt: Fmt::Xz, opts: Opts::default(), input: Hex(bytes.clone()), rd: Rd { cuts: vec![usize::MAX], ..Rd::default() }, sk: Sk::default() });
